@@ -629,6 +629,12 @@ pub fn check_main(make: &dyn Fn(&str) -> Option<Box<dyn Engine>>, prop: &str, ti
     });
     if let Some(extra) = crate::extra_evidence(prop, tier) {
         for (k, v) in extra.as_object().unwrap() {
+            if k == "__violation" {
+                new_violations += 1;
+                println!("VIOLATION property={prop} replay={}", v["replay"].as_str().unwrap_or(""));
+                println!("  {}", v["msg"].as_str().unwrap_or(""));
+                continue;
+            }
             coverage[k] = v.clone();
         }
     }
